@@ -16,14 +16,14 @@ def catalogue():
         'zero': 0, 'neg': -2.0, 'nan': float('nan'), 'inf': float('inf'), 'str': 'abc', 'none': None,
         'list': [1.0, 2.0], 'arr0d': np.array(2.0), 'arr1d': np.array([1.0, 2.0]),
         'qpix': 2 * u.pix, 'qm': 1 * u.m,
-        'pA': PixCoord(1, 2), 'pB': PixCoord(3.5, -1.0), 'parr3': PixCoord([0, 4, 2], [0, 0, 3]),
+        'pA': PixCoord(1, 2), 'pB': PixCoord(3.5, -1.0), 'pAc': PixCoord(1 + 1e-7, 2), 'pAf': PixCoord(1.001, 2), 'parr3': PixCoord([0, 4, 2], [0, 0, 3]),
         'parr4': PixCoord([0.0, 4, 4, 0], [0.0, 0, 3, 3]), 'p2d': PixCoord([[0, 1], [2, 3]], [[0, 1], [2, 3]]),
         'tuple': (1, 2),
         'sA': sA, 'sB': sB, 'sarr3': SkyCoord([1, 2, 3], [4, 5, 5.5], unit='deg'),
         'sarr4': SkyCoord([1, 2, 3, 2], [4, 5, 5.5, 6], unit='deg', frame='fk5'),
         's2d': SkyCoord([[1, 2], [3, 4]], [[4, 5], [5, 6]], unit='deg'),
         'a0': 0 * u.deg, 'a30': 30 * u.deg, 'arad': 0.5 * u.rad, 'aAngle': Angle(10, 'deg'), 'aneg': -45 * u.deg,
-        'aarr': [1, 2] * u.deg,
+        'aarr': [1, 2] * u.deg, 'a30am': 1800 * u.arcmin, 'q180as': 180 * u.arcsec,
         'q1as': 1 * u.arcsec, 'q3am': 3 * u.arcmin, 'q2deg': 2 * u.deg, 'qinf': float('inf') * u.deg,
         'qnan': float('nan') * u.deg,
         'regP1': CirclePixelRegion(PixCoord(0, 0), 1.0), 'regP2': RectanglePixelRegion(PixCoord(1, 1), 2, 3),
@@ -191,6 +191,24 @@ class World:
                     return base.__name__
             return type(ex).__name__
         return 'ok'
+
+    def equality(self):
+        """Real ==/!= of the objects in slots 1 and 2: 'eq', 'ne', '-' or a description of an inconsistency."""
+        if 1 not in self.slots or 2 not in self.slots:
+            return '-'
+        a, b = self.slots[1], self.slots[2]
+        try:
+            r = [a == b, b == a, not (a != b), not (b != a)]
+            refl = (a == a) and (b == b) and not (a != a)
+        except Exception as ex:  # noqa
+            return f'raises {type(ex).__name__}'
+        if not all(isinstance(x, (bool, np.bool_)) for x in r):
+            return 'non-bool'
+        if not refl:
+            return 'not-reflexive'
+        if len({bool(x) for x in r}) != 1:
+            return f'asymmetric {[bool(x) for x in r]}'
+        return 'eq' if r[0] else 'ne'
 
     def project(self, nslots, tokens_for):
         """-> (heap projection, dict contents, sharing partition)."""
